@@ -14,6 +14,8 @@ TRUSTED = [
     "extractor translate/extract_sepproc.py: EINTR retry bound, the if/else-if chain of SetTestFailureByStatusCode and the "
     "failure messages regenerated into Gen/SeparateProcessConstants.lean; shape check of the whole parent/child function, "
     "of the two seam implementations, of UtestShell::runOneTest and of TestRegistry::runAllTests",
+    "real-process part calls the tree's own PlatformSpecificFork/WaitPid implementations (saved seam pointers), incl. a scenario "
+    "with a 1-2 ms POSIX timer signal handled without SA_RESTART while a child sleeps 400-500 ms",
     "fork/waitpid/kill, signal delivery and the encoding of the status word are the kernel's and glibc's: the theorems cover "
     "every sequence of results the parent can be given, part (b) of the harness observes real children",
     "the textbook reading of a status word (Spec.classify) used by theorems and oracle",
@@ -228,6 +230,22 @@ def real_case(rng, dying):
     return ops
 
 
+def ticked_case(rng, i):
+    """the parent's wait for a sleeping child is interrupted every 1-2 ms for 400-500 ms (>= 200 deliveries where
+    bound+2 = 32 are enough to give up); controls: a child that ends after a few interruptions only must NOT be lost"""
+    ops = ["tests 4"]
+    if i % 2:
+        ops.append("cli")
+    ops.append("real 0 body none 0")
+    ops.append("real 1 %s sleep %d" % (rng.choice(["setup", "body", "teardown"]), rng.choice([400, 450, 500])))
+    ops.append("tick 1 %d" % rng.choice([1000, 1500, 2000]))
+    ops.append("real 2 body sleep %d" % rng.choice([3, 5, 8]))          # a handful of interruptions, then a normal exit
+    ops.append("tick 2 %d" % rng.choice([1000, 2000]))
+    ops.append("real 3 body %s" % rng.choice(["none 0", "signal 11", "exit 2"]))
+    ops.append("run")
+    return ops
+
+
 def grouped_case(rng, cli=False):
     """several groups of several tests; the tests that die are never the first of their group"""
     sizes = [rng.choice([2, 3, 4]) for _ in range(rng.choice([1, 2, 3]))]
@@ -326,6 +344,9 @@ def generate(rng, tier):
             out.append(("real", real_case(rng, dying)))
     for i in range(60 if quick else 800):
         out.append(("groups", grouped_case(rng, cli=(i % 3 == 0))))
+    # real waitpid seam interrupted by a periodic signal whose handler has no SA_RESTART, while a child sleeps
+    for i in range(4 if quick else 24):
+        out.append(("ticked", ticked_case(rng, i)))
     # mixed registries: stubbed and real tests side by side
     for _ in range(20 if quick else 300):
         n = rng.choice([2, 3, 4, 5])
@@ -384,7 +405,7 @@ def translate(ctx):
 
 
 def ignore_line(l):
-    return l.startswith("phases ")
+    return l.startswith("phases ") or l.startswith("ticks ")
 
 
 def _msgs(r):
@@ -431,6 +452,9 @@ def observe(r, rep):
             rep.count("real_wait." + l.split()[2])
         elif l.startswith("deadline"):
             rep.count("deadline")
+        elif l.startswith("ticks "):
+            n = int(l.split()[2])
+            rep.count("real_wait_interrupted_by_timer." + ("0-9" if n < 10 else "10-31" if n < 32 else "32-99" if n < 100 else "100+"))
         elif l.startswith("inrunner "):
             rep.count("test_executed_inside_runner")
         elif l.startswith("exitcode "):
